@@ -23,7 +23,12 @@ func (p pkgList) String() string {
 	return strings.Join(res, " ")
 }
 
-func loadImports(sys fs.FS, topPkg string, top *token) (pkgList, error) {
+func loadImports(sys fs.FS, topPkg string, top *token) (pkgs pkgList, err error) {
+	defer func() {
+		if r := recover(); r != nil { // e.g. an import path that strconv.Unquote rejects
+			pkgs, err = nil, fmt.Errorf("%v", r)
+		}
+	}()
 	packages := map[string]*token{}
 	deps := map[string]map[string]bool{}
 	todo := []string{topPkg}
